@@ -57,7 +57,7 @@ var (
 func c18Name(tag string, restricted bool) (Term, []Atom, string) {
 	var sel int
 	if restricted {
-		sel = []int{0, 7, 4}[choice("name"+tag, 3)]
+		sel = []int{0, 7, 4, 1}[choice("name"+tag, 4)]
 	} else {
 		sel = choice("name"+tag, 11)
 	}
@@ -222,7 +222,13 @@ func VH_C18(vm *VM, inst int) {
 	}
 	for step := 0; step < ncalls; step++ {
 		tag := string(rune('0' + step))
-		p := nondetInt64("prio" + tag)
+		var p int64
+		if inst == 4 && step == 0 {
+			// quick two-call family: the first call's priority is case-split over the classes, the second is symbolic
+			p = []int64{0, 200, 1001}[choice("prio"+tag, 3)]
+		} else {
+			p = nondetInt64("prio" + tag)
+		}
 		var specT Term
 		var spec Atom
 		specKind := ""
@@ -248,7 +254,9 @@ func VH_C18(vm *VM, inst int) {
 		}
 		nameT, names, nameErr := c18Name(tag, restricted)
 		if narrow {
-			assume(nameT == Term(c18Foo))
+			// second call of the quick family: foo or [foo, bar]
+			_, isList := nameT.(Compound)
+			assume(nameT == Term(c18Foo) || (isList && len(names) == 2))
 		}
 		for _, n := range names {
 			touched[n] = true
